@@ -256,20 +256,29 @@ class StubCalc(Calculator):
     data[e, (xyz)] = mean_k g_{e,xyz}(k) + eps * cellsize^(1/3)  (the second term makes K-points of different
     refinement level at the same position differ)."""
 
-    def __init__(self, field_seed, nE=2, rank=0, pointgroup=None, odd=False, eps=0.37, save_mode="bin", **kw):
+    def __init__(self, field_seed, nE=2, rank=0, pointgroup=None, odd=False, eps=0.37, save_mode="bin", smooth=False, **kw):
+        if smooth:
+            save_mode = "bin+txt"       # the text file holds the smoothed columns
         super().__init__(save_mode=save_mode, **kw)
         self.nE, self.rank, self.eps = nE, rank, eps
+        self.smoother = None
         self.field = GField(field_seed, ncomp=nE * 3 ** rank, pointgroup=pointgroup if rank == 0 else None)
         self.tr = transform_odd if odd else transform_ident
         self.Energies = np.linspace(-0.5, 0.5, nE) + 0.01234
+        if smooth and nE >= 3:
+            from wannierberri.smoother import GaussianSmoother
+            self.smoother = GaussianSmoother(self.Energies, smear=0.35, maxdE=3)
         self.comment = "stub calculator"
 
     def __call__(self, data_K):
         k = data_K.kpoints_all
         g = self.field(k).mean(axis=0)
         g = g + self.eps * _cell_size(data_K.Kpoint) ** (1. / 3)
+        # a parameter of the Data_K object (parameters_K of run()) enters the payload, so that evaluating with the
+        # parameters of ANOTHER run() call changes the numbers
+        g = g + float(getattr(data_K, "parameters", {}).get("stub_shift", 0.0))
         data = g.reshape((self.nE,) + (3,) * self.rank)
-        return EnergyResult(self.Energies, data, transformTR=self.tr, transformInv=self.tr,
+        return EnergyResult(self.Energies, data, transformTR=self.tr, transformInv=self.tr, smoothers=[self.smoother],
                             save_mode=self.save_mode, rank=self.rank, comment="stub")
 
 
